@@ -11,8 +11,7 @@ PROP = {'engine': 'srv',
                   'glibc regcomp/regexec trusted as there',
                   'content filters in the reflector engine are int32 comparisons on one field; the full filter language is property C14'],
  'assumptions': ["SUBSCRIBE paths are GoodPaths (no empty clause; C15's pattern laws) in the theorems about marks and notifications",
-                 "no quiet flags / disabled subscriptions / explicit GETDATA in the mirror oracle's scope",
-                 'F10 shape excluded from the random stream (known finding with corpus trigger)'],
+                 "no quiet flags / disabled subscriptions / explicit GETDATA in the mirror oracle's scope"],
  'rule': 'generated histories over 2-5 sessions on two hosts: attach/detach, SETDATA (incl. ADDTOINDEX), REMOVEDATA with wildcards, SUBSCRIBE with/without '
          'int32 filters, re-filter, unsubscribe, reflect-to-self, max-items, default route, client-to-client Messages with 0-2 key patterns, '
          'INSERTORDEREDDATA, REORDERDATA, BATCH, PING, FindMatchingNodes; every 4th case is the hostile stream (arbitrary structurally valid Messages with '
@@ -56,6 +55,7 @@ TEXT = {'design_ref': 'DESIGN.md section 4, C04',
          "no depth check, the code refuses them), host names containing '/'; (5) the engine's clone/save/restore/trees ops; (6) a start with subscriptions "
          'already held (`run3_quiescent` covers it when the mirror is right at the start).  Those and everything else are still decided by correspondence + '
          'the mirror oracle.  Oracle premises: clients that used quiet flags / disabled subscriptions / explicit GETDATA are exempt by definition of those '
-         'features.  Open finding F10 (two spellings of one subscription path) is kept out of the random stream and runs from corpus/C04/srv-known-F10.ops.  '
-         'The order in which the subscribers of one node are notified comes from a content-addressed table cache and is not modelled: max-items and '
-         'multi-payload SETDATA are only used in single-subscriber cases.'}
+         'features.  Finding F10 (two spellings of one subscription path) is repaired in the code (5abe56c: the older spelling is dropped from the '
+         'parameters); two spellings are generated freely and the former trigger is the regression case corpus/C04/srv-regress-F10.ops.  The order in which '
+         'the subscribers of one node are notified comes from a content-addressed table cache and is not modelled: max-items and multi-payload SETDATA are '
+         'only used in single-subscriber cases.'}
